@@ -124,6 +124,7 @@ struct State
   std::map<std::string, std::string> extra; // raw JSON values
   std::vector<std::string> notes;
   int crash_fd = -1;
+  int viol_fd = -1; // violations are also appended here as they happen (survives a later crash of the driver)
   char ctx[512] = { 0 };
   std::mutex mtx;
 };
@@ -217,6 +218,8 @@ inline void init(const char* prop, int argc = 0, char** argv = nullptr, bool ins
   if (const char* o = getenv("VERIF_OUT")) {
     std::string c = std::string(o) + ".crash";
     s.crash_fd = open(c.c_str(), O_WRONLY | O_CREAT | O_TRUNC, 0644);
+    std::string vf = std::string(o) + ".viol";
+    s.viol_fd = open(vf.c_str(), O_WRONLY | O_CREAT | O_TRUNC | O_APPEND, 0644);
   }
   if (install_crash_handlers) {
 #if MON_ASAN
@@ -252,6 +255,11 @@ inline void violation(const std::string& key, const std::string& detail)
   auto& r = s.viol[key];
   r.count++;
   if (r.details.size() < 3) r.details.push_back(detail);
+  if (r.count == 1 && s.viol_fd >= 0) {
+    std::string line = "{\"key\":\"" + jesc(key) + "\",\"count\":1,\"details\":[\"" + jesc(detail.substr(0, 1500)) + "\"]}\n";
+    ssize_t w = write(s.viol_fd, line.data(), line.size());
+    (void)w;
+  }
   if (s.verbose || r.count == 1)
     fprintf(stderr, "[mon] violation key=%s : %s\n", key.c_str(), detail.c_str());
 }
